@@ -157,6 +157,20 @@ func (ds *dataStore) flush(chunk int, force bool) error {
 	return nil
 }
 
+// flushBuffered flushes every chunk that still has buffered records, not only the
+// head: the records of a just rotated file are otherwise only written by the
+// goroutine started in AppendRecord, which a closing bucket does not wait for.
+func (ds *dataStore) flushBuffered() {
+	for i := 0; i <= ds.newHead && i < MAX_NUM_CHUNK; i++ {
+		ds.chunks[i].Lock()
+		n := len(ds.chunks[i].wbuf)
+		ds.chunks[i].Unlock()
+		if n > 0 {
+			ds.flush(i, true)
+		}
+	}
+}
+
 func (ds *dataStore) GetRecordByPos(pos Position) (res *Record, inbuffer bool, err error) {
 	return ds.chunks[pos.ChunkID].GetRecordByOffset(pos.Offset)
 }
